@@ -354,7 +354,9 @@ func genPatchCases(r *rand.Rand) []pcase {
 			if kind == "move" || kind == "copy" {
 				extra = M{"from": "/a"}
 			}
-			out = append(out, pcase{"ietf:path-protected:" + kind + ":" + prot, jp(op(kind, prot, extra)), false})
+			// sibling names (first reference token is another name) are not protected (fix bdae33d)
+			sibling := prot == "/serviceX" || prot == "/publicKeys"
+			out = append(out, pcase{"ietf:path-protected:" + kind + ":" + prot, jp(op(kind, prot, extra)), sibling})
 		}
 	}
 	for _, kind := range []string{"move", "copy"} {
